@@ -1433,6 +1433,148 @@ theorem C16_font (info : Info) (env : Env) (ctx : Ctx) (o : Out) (hw : wfInfo in
   · rw [(compile_ok info env ctx o h).1]
     exact C16_gasp_field _ info env ctx (wf_typed info hw .openTypeGaspRangeRecords)
 
+/-! ### InfoCompiler (code after the repair of `_set_attrs`) -/
+
+theorem merge_cases (base over : Info) (a : Attr) :
+    mergeInfo base over a = over a ∧ over a ≠ .none ∨ mergeInfo base over a = base a ∧ over a = .none := by
+  unfold mergeInfo
+  by_cases h : over a ≠ .none
+  · left; simp [h]
+  · right; simp at h; simp [h]
+
+/-- the union of two well-formed infos is well-formed -/
+theorem wf_merge (base over : Info) (hb : wfInfo base = true) (ho : wfInfo over = true) :
+    wfInfo (mergeInfo base over) = true := by
+  simp only [wfInfo, Bool.and_eq_true, List.all_eq_true] at hb ho ⊢
+  obtain ⟨⟨⟨⟨⟨⟨⟨b1, b2⟩, b3⟩, b4⟩, b5⟩, b6⟩, b7⟩, b8⟩ := hb
+  obtain ⟨⟨⟨⟨⟨⟨⟨o1, o2⟩, o3⟩, o4⟩, o5⟩, o6⟩, o7⟩, o8⟩ := ho
+  refine ⟨⟨⟨⟨⟨⟨⟨?_, ?_⟩, ?_⟩, ?_⟩, ?_⟩, ?_⟩, ?_⟩, ?_⟩
+  · intro a ha
+    rcases merge_cases base over a with h | h <;> rw [h.1]
+    · exact o1 a ha
+    · exact b1 a ha
+  all_goals first
+    | (rcases merge_cases base over .openTypeOS2Panose with h | h <;> rw [h.1] <;> assumption)
+    | (rcases merge_cases base over .openTypeOS2FamilyClass with h | h <;> rw [h.1] <;> assumption)
+    | (rcases merge_cases base over .postscriptBlueValues with h | h <;> rw [h.1] <;> assumption)
+    | (rcases merge_cases base over .postscriptOtherBlues with h | h <;> rw [h.1] <;> assumption)
+    | (rcases merge_cases base over .versionMajor with h | h <;> rw [h.1] <;> assumption)
+    | (rcases merge_cases base over .versionMinor with h | h <;> rw [h.1] <;> assumption)
+    | (rcases merge_cases base over .styleMapStyleName with h | h <;> rw [h.1] <;> assumption)
+
+def tempCtx (ctx : Ctx) : Ctx := { ctx with otf := false, glyf := false, cffWritten := false }
+
+/-- **C16_infocompiler_total**: applying well-formed overrides to a font compiled from a well-formed info never
+    raises — in particular not when the override defines vertical metrics for a font without vhea, nor when it
+    empties the gasp records of a font with a gasp table (before the repair: KeyError, see `infoCompileOld`).
+    (The hypothesis on the CFF strings concerns the compile of the base font only: known finding
+    C16-cff-string-not-encodable.) -/
+theorem C16_infocompiler_total (base over : Info) (env envBase : Env) (ctx : Ctx) (bv bg : Bool)
+    (hb : wfInfo base = true) (ho : wfInfo over = true)
+    (henc : ctx.otf = true → ctx.cffWritten = true →
+      cffEncodable (getV base envBase) envBase = true ∧ isAscii (getV base envBase .postscriptFontName).s = true) :
+    ∃ o, infoCompile base over env envBase ctx bv bg = .ok o := by
+  obtain ⟨o, h1⟩ := C16_compiles_partial base envBase ctx hb henc
+  obtain ⟨m, h2⟩ := C16_compiles_partial (mergeInfo base over) env (tempCtx ctx) (wf_merge base over hb ho)
+    (by intro h; simp [tempCtx] at h)
+  unfold infoCompile
+  simp only [tempCtx] at h2
+  simp only [h1, h2, bind, Except.bind, pure, Except.pure]
+  exact ⟨_, rfl⟩
+
+theorem infoCompile_fields (base over : Info) (env envBase : Env) (ctx : Ctx) (bv bg : Bool) (r : Out)
+    (h : infoCompile base over env envBase ctx bv bg = .ok r) :
+    ∃ o m, compile base envBase ctx = .ok o ∧ compile (mergeInfo base over) env (tempCtx ctx) = .ok m ∧
+      r.names = namesUpdate o.names m.names ∧
+      ∀ f, r.fields f =
+        (if f = .gasp then
+          (if bg = true ∧ ((mergeInfo base over) .openTypeGaspRangeRecords).truthy = true then m.fields f else o.fields f)
+        else if isVheaField f = true then
+          (if bv = true ∧ isVertical (getV (mergeInfo base over) env) = true then m.fields f else o.fields f)
+        else if infoCompilerField f = true then
+          (match m.fields f with | .none => o.fields f | .unspecified => o.fields f | v => v)
+        else o.fields f) := by
+  unfold infoCompile at h
+  cases h1 : compile base envBase ctx with
+  | error e => simp [h1, bind, Except.bind] at h
+  | ok o =>
+    cases h2 : compile (mergeInfo base over) env (tempCtx ctx) with
+    | error e => simp only [tempCtx] at h2; simp [h1, h2, bind, Except.bind] at h
+    | ok m =>
+      simp only [tempCtx] at h2
+      simp only [h1, h2, bind, Except.bind, pure, Except.pure, Except.ok.injEq] at h
+      subst h
+      exact ⟨o, m, rfl, rfl, rfl, fun f => rfl⟩
+
+/-- **C16_infocompiler_missing_table**: a table the temporary compile does not build is left exactly as the
+    compiled font had it: the vhea fields when the font has no vhea table (whatever the override says), the gasp
+    ranges when the font has none or the merged info has no gasp records left. -/
+theorem C16_infocompiler_missing_table (base over : Info) (env envBase : Env) (ctx : Ctx) (bv bg : Bool) (r o : Out)
+    (h : infoCompile base over env envBase ctx bv bg = .ok r) (ho : compile base envBase ctx = .ok o) :
+    (bv = false → ∀ f, isVheaField f = true → r.fields f = o.fields f) ∧
+    ((bg = false ∨ ((mergeInfo base over) .openTypeGaspRangeRecords).truthy = false) → r.fields .gasp = o.fields .gasp) := by
+  obtain ⟨o', m, h1, _, _, hf⟩ := infoCompile_fields base over env envBase ctx bv bg r h
+  rw [ho] at h1; cases h1
+  constructor
+  · intro hbv f hv
+    rw [hf f]
+    have : f ≠ .gasp := by intro e; subst e; simp [isVheaField] at hv
+    simp [this, hv, hbv]
+  · intro hg
+    rw [hf .gasp]
+    rcases hg with hg | hg <;> simp [hg]
+
+theorem applyConv_isValue (c : Conv) (v : Val) : applyConv c v ≠ .none ∧ applyConv c v ≠ .unspecified := by
+  cases c <;> simp [applyConv]
+
+/-- **C16_infocompiler_rows**: after InfoCompiler, every row of the field table that lies in a table
+    InfoCompiler handles (head, hhea, OS/2, post) shows the converted effective value of the MERGED info —
+    the override wins where it is set, the compiled font's info fills the rest. -/
+theorem C16_infocompiler_rows (base over : Info) (env envBase : Env) (ctx : Ctx) (bv bg : Bool) (r : Out)
+    (h : infoCompile base over env envBase ctx bv bg = .ok r) :
+    ∀ row ∈ rows, infoCompilerField row.field = true → isVheaField row.field = false →
+      condHolds row.cond (getV (mergeInfo base over) env) (tempCtx ctx) row.attr = true →
+      r.fields row.field = applyConv row.conv (getV (mergeInfo base over) env row.attr) := by
+  intro row hrow hic hv hc
+  obtain ⟨o, m, _, h2, _, hf⟩ := infoCompile_fields base over env envBase ctx bv bg r h
+  have hm := (compile_ok _ env (tempCtx ctx) m h2).1
+  have hval := C16_rows (getV (mergeInfo base over) env) (mergeInfo base over) env (tempCtx ctx) row hrow hc
+  have hg : row.field ≠ .gasp := by
+    intro e
+    simp only [rows, List.mem_cons, List.mem_nil_iff, or_false] at hrow
+    rcases hrow with rfl | rfl | rfl | rfl | rfl | rfl | rfl | rfl | rfl | rfl | rfl | rfl | rfl | rfl | rfl | rfl | rfl | rfl | rfl | rfl | rfl | rfl | rfl | rfl | rfl | rfl | rfl | rfl | rfl | rfl | rfl | rfl | rfl | rfl | rfl | rfl | rfl | rfl | rfl | rfl | rfl | rfl | rfl | rfl | rfl | rfl | rfl | rfl | rfl | rfl | rfl <;> simp at e
+  rw [hf row.field]
+  simp only [hg, if_false, hv, Bool.false_eq_true, hic, if_true]
+  rw [hm, hval]
+  have := applyConv_isValue row.conv (getV (mergeInfo base over) env row.attr)
+  generalize applyConv row.conv (getV (mergeInfo base over) env row.attr) = x at this
+  cases x <;> simp_all
+
+/-! #### history: `_set_attrs` BEFORE the repair -/
+
+def isKeyError : R Out → Bool
+  | .error .keyError => true
+  | _ => false
+def isOk : R Out → Bool
+  | .ok _ => true
+  | _ => false
+
+/-- override that defines the three vertical metrics -/
+def vheaOverride : Info := fun a =>
+  match a with
+  | .openTypeVheaVertTypoAscender => .num 500
+  | .openTypeVheaVertTypoDescender => .num (-500)
+  | .openTypeVheaVertTypoLineGap => .num 0
+  | _ => .none
+
+/-- about the OLD code: a well-formed override on a TrueType font without vhea raised KeyError; the repaired
+    code returns normally on the same input -/
+theorem C16_infocompiler_old_keyerror :
+    wfInfo (fun _ => .none) = true ∧ wfInfo vheaOverride = true ∧
+    isKeyError (infoCompileOld (fun _ => .none) vheaOverride witnessEnv witnessEnv ⟨false, false, true, false⟩ false false) = true ∧
+    isOk (infoCompile (fun _ => .none) vheaOverride witnessEnv witnessEnv ⟨false, false, true, false⟩ false false) = true := by
+  refine ⟨by decide, by decide, by decide, by decide⟩
+
 /-! ### non-vacuity: the hypotheses of the main theorems are met by concrete non-trivial inputs -/
 
 /-- an info with explicit and absent attributes, odd-free zone lists, a non-ASCII family name -/
